@@ -177,7 +177,7 @@ async def run_history(w: NsWorld, steps, events):
         # every fourth namespace command (every second RENAME) spells its (first) mailbox name with the one leading "/" that the
         # server tolerates and ignores: the same mailbox, so the model's step is the same
         if ALIAS_SPELLING and act in ("Create", "Delete", "Rename", "Subscribe", "Unsubscribe") and nm1 \
-                and not nm1.startswith("/") and len(events) % (2 if act == "Rename" else 4) == 1:
+                and not nm1.startswith("/") and (st.get("alias") or len(events) % (2 if act == "Rename" else 4) == 1):
             nm1 = "/" + nm1
         n1 = render_name(nm1, st.get("enc", "quoted"))
         n2 = render_name(unchars(st.get("name2", [])), st.get("enc", "quoted"))
